@@ -297,6 +297,15 @@ def build(job, cfg, seed, plan_len, want_corr):
     if wrong:
         out["failing"].append({"kind": "configured-level-not-used", "job": job, "config": cfg,
                                "skill: [configured, level in the built environment]": wrong})
+    # two pairs of the replacement table that are CROSSED (X is replaced by `Y VI` and Y by `X VI`): each lower-tier skill
+    # would be kept or dropped by the level of the other one's replacement
+    import re as _re
+    norm = {lo_: _re.sub(r" VI\b", "", hi_) for lo_, hi_ in profile.get_skill_replacements().items()}
+    for lo1, n1 in norm.items():
+        if n1 != lo1 and norm.get(n1) == lo1:
+            out["failing"].append({"kind": "replacement-table-crossed", "job": job,
+                                   "pairs": {lo1: profile.get_skill_replacements()[lo1], n1: profile.get_skill_replacements()[n1]}})
+            break
     for low, high in profile.get_skill_replacements().items():
         lvl = configured.get(high, 0)
         out["replacement_cases"] += 1
